@@ -66,7 +66,7 @@ def cases(tier, seed):
                     k += 1
                     out.append({"dir": "dl", "n": n, "api": api, "buf": buffering, "pred": pred,
                                 "addr": list(ADDRS[(k + seed) % len(ADDRS)]), "seed": seed})
-    for n in list(range(0, N + 1)) + (big if tier == "thorough" else []):
+    for n in list(range(0, N + 1)) + (big if tier == "thorough" else [31, 33, 47, 48]):
         for style in ("exp_s", "exp_nos", "seg_s", "seg_nos"):
             if style.startswith("exp") and not 1 <= n <= 4:
                 continue
